@@ -84,7 +84,8 @@ def _ambiguous(ns, uterm, v):
             anni, mi, ui = E.routines_for(ai, ns)
             if mi.ok and call(mi.val, v).ok:
                 return True
-            if wj is not None and wj.ok and ui.ok and call(ui.val, wj.val).ok:
+            if wj is not None and wj.ok and ui.ok and (call(ui.val, wj.val).ok or call(ui.val, E.plain_wire(wj.val)).ok):
+                # (the wire form as it comes back from a text codec: IntSub(1) travels as 1)
                 return True
     return False
 
